@@ -210,7 +210,7 @@ def run_shard(ctx):
         for b, w in fails:
             ctx.fail(b, w, case)
 
-    forces = ["scan", "vmap", "indicator", "cond", "vdist", "call", None, "detcall"]
+    forces = ["scan", "vmap", "indicator", "cond", "vdist", "call", "condm", "detcall"]
     drive(ctx, histories(forces[ctx.shard % len(forces)], P["max_ops"]), P["n_histories"], one, "hist")
     nk = modelir.NEST_KINDS  # combinators applied directly to combinators
     drive(ctx, histories(nk[ctx.shard % len(nk)], P["max_ops"]), P.get("n_nest", max(1, P["n_histories"] // 3)), one, "nest")
